@@ -54,6 +54,10 @@ CLAIMED = {
          'For all integer-keyed maps, values and keys: map:get(map:put(m,k,v),k) = v, other keys unchanged, size arithmetic, keys stay duplicate-free under put/remove, merge use-first/use-last/reject/combine per entry; for all arrays and indexes the array laws above. Immutability is immediate in Gallina; on the Python objects it is checked by snapshots around every call (three mutation defects and the NaN-key defect were fixed in /repo). Key identity across types (op:same-key) is an observation table with four known findings pinned to their exact deviation.',
          'Trusted: Coq kernel; integer keys stand for all keys on which Python ==/hash coincide with same-key; harness encoding of maps/arrays. No axioms.',
          'DESIGN.md §6 C15'),
+ 'C07': ('Coq proof that general comparison is exists-over-pairs, that EBV follows the F&O table, Boolean algebra of and/or/not, string order = code point order; the isinstance chain of the value-comparison operator as a decision table whose deviation from the F&O operator mapping is computed exactly by the kernel; correspondence on all 6x18x18 type cells, integer sequences and all item sequences of length <= 2',
+         'For all sequences and any item comparison, A op B holds iff some pair satisfies it; for all item sequences the effective boolean value is the F&O one (error exactly for the undefined shapes); and/or/not laws. The value-comparison type table is a finite statement proved for all 1944 cells (C07_type_table_partial) with the 40 deviating cells listed (known finding); ordering inside each type is delegated to C06/C09/C11. Double eq tolerance is a known finding (observed, not modelled).',
+         'Trusted: Coq kernel; vc_spec as transcription of the F&O operator mapping; representative values per type; harness table of untypedAtomic conversions. No axioms.',
+         'DESIGN.md §6 C07'),
 }
 
 NOT_YET = {}
